@@ -10,6 +10,7 @@ from .common import MachineryError, run_tlc, tlc_failure_excerpt
 class BatchResult:
     def __init__(self):
         self.verdicts = {}  # (unit index, input index) 0-based -> verdict string
+        self.action_coverage = {}  # action name -> states generated through it (first batch, TLC -coverage 1)
         self.terminals = {}  # (unit index, input index) -> number of terminal states (> 1 when TLC branched)
         self.steps = {}  # (unit index, input index) -> length of the behaviour (machine steps)
         self.scope = {}  # unit index -> WellScoped verdict of the spec (ExoProgram!WellScoped)
@@ -24,7 +25,7 @@ def _size(unit):
                if isinstance(side, dict) and "bufs" in side for b in side["bufs"]) + 200
 
 
-def run_units(units, workdir, stepbound=6000, timeout=1500, max_batch_bytes=24_000_000, workers=None):
+def run_units(units, workdir, stepbound=6000, timeout=1500, max_batch_bytes=24_000_000, workers=None, coverage=False):
     """Run every (unit, input) of `units` (all must have >= 1 input).  Returns BatchResult.
 
     A TLC run that ends with anything but "No error has been found" in census mode is a
@@ -46,7 +47,12 @@ def run_units(units, workdir, stepbound=6000, timeout=1500, max_batch_bytes=24_0
         with open(path, "w") as f:
             json.dump({"units": [u for _, u in batch], "stepbound": stepbound}, f)
         r = run_tlc("ExoMachine", "ExoMachine.cfg", workdir, env={"EXO_BATCH": path},
-                    timeout=timeout, workers=workers)
+                    timeout=timeout, workers=workers, extra=("-coverage", "1") if (coverage and bi == 0) else ())
+        if coverage and bi == 0:
+            # per-action counts of the first batch (TLC -coverage): every action of the machine must have been taken
+            import re
+            for m in re.finditer(r"^<(\w+) line \d+, col \d+ to line \d+, col \d+ of module ExoMachine>: (\d+):(\d+)", r.stdout, re.M):
+                res.action_coverage[m.group(1)] = res.action_coverage.get(m.group(1), 0) + int(m.group(3))
         res.tlc_runs += 1
         res.wall += r.wall
         res.states += r.distinct
